@@ -88,7 +88,7 @@ CFG = dict(
          "must be identical for min / max / arg-extrema / rank and within 1e-9 relative to the history magnitude otherwise, for all 37 "
          "entry points. nt=0 marks the empty prefix.",
     theorem_hint="Props/C06.v",
-    level_text="Proof (Coq, 43 theorems in Props/C06.v). (A) No look-ahead, bit for bit: the prefix law out(firstn k xs) = firstn k "
+    level_text="Proof (Coq, 62 theorems in Props/C06.v). (A) No look-ahead, bit for bit: the prefix law out(firstn k xs) = firstn k "
                "(out xs) for EVERY add-emit-remove rolling feature over every carrier (no law of the numeric class is used, so it "
                "holds at binary64 too), both driver bodies, every window >= 1 and cut k (moments, ewm, wma, z-score, cov / corr / "
                "regression-on-x over the zipped series, trend regressions); for the slice-form drivers (fdiff) with any stateful "
@@ -99,16 +99,28 @@ CFG = dict(
                "/ vargmax / vrank (explicit min_periods at every cut, omitted min_periods when prefix and series are >= w long; a "
                "refutation witness shows the DESIGN 5.3 restriction is needed), ts_vminmaxnorm (every cut, any min_periods) and "
                "ts_vregx_resid_mean / std / skew (every cut) in the form 'the whole call returns out -> the call on the prefix "
-               "returns firstn k out'; unconditionally (the call always returns) at the integer carrier for the extrema / rank "
-               "family and at option R for ts_vminmaxnorm on data bounded by the sentinels; for shift / vshift / vdiff / "
+               "returns firstn k out'; UNCONDITIONALLY (the whole call returns out of the input length and the prefix call returns "
+               "firstn k out) for ts_vmin / vmax / vargmin / vargmax at every carrier satisfying the order laws OrdLaws of "
+               "Spec/ExtremaOrd.v on series whose valid elements are not NaN (C06_prefix_ordered_*, Proofs/MaskOrd.v: totality from "
+               "the C03 closed forms) — the integer carrier, option R, and Coq's primitive binary64: f64 with NaN as the null with "
+               "no premise (C06_prefix_extrema_binary64) and Option<f64> without Some(NaN), DESIGN 5.4 "
+               "(C06_prefix_extrema_option_binary64), resting only on FloatAxioms.{eqb,ltb,leb}_spec — and for ts_vrank at EVERY "
+               "input and output carrier with no law and no premise (C06_prefix_unconditional_ts_vrank, axiom-free; binary64 in and "
+               "out: C06_ts_vrank_binary64_no_lookahead); at option R for ts_vminmaxnorm on data bounded by the sentinels; for shift / vshift / vdiff / "
                "vpct_change with every n >= 0 (a witness shows n < 0 reads ahead). (B) No dependence on pre-window data: two "
                "series whose windows at positions i and j coincide give equal outputs there — exactly for min / max / arg-extrema "
-               "/ rank (axiom-free) and for the stateless slice form, and in exact arithmetic (option R) for the moment, ewm, wma, "
+               "/ rank (integer carrier, axiom-free; at every OrdLaws carrier incl. binary64 f64 / Option<f64> in the strong form "
+               "'both calls return, either driver body each, and the two outputs are the same value': C06_window_only_ordered_*, "
+               "C06_window_only_extrema_binary64 / _option_binary64; ts_vrank at every input and output carrier, binary64 rank "
+               "arithmetic included, because its output is one function g_rank_any of the window: "
+               "C06_ts_vrank_is_a_function_of_the_window, C06_window_only_any_carrier_ts_vrank) and for the stateless slice form, and in exact arithmetic (option R) for the moment, ewm, wma, "
                "cross-sum and trend accumulators with ANY emit function, for ts_vzscore (the state also remembers the current "
                "element; the emitted value is still determined by the window), for ts_vminmaxnorm (bounded data) and for the three "
-               "regression-residual statistics (windows of both series). Still partial: at carriers other than Z / option R the "
-               "index-form prefix laws assume that the call on the whole series returns (no panic) — shown by the correspondence "
-               "runs, not proved for binary64; the window-only law of the accumulator families holds up to rounding in binary64 "
+               "regression-residual statistics (windows of both series). Still partial: for ts_vminmaxnorm at carriers other than option R the "
+               "index-form prefix law still assumes that the call on the whole series returns (no panic) — shown by the "
+               "correspondence runs, not proved for binary64 (its closed form is over option R with the sentinel bound); for "
+               "Option<f64> series containing Some(NaN) nothing is claimed (DESIGN 5.4; the model of ts_vargmin underflows there); "
+               "the window-only law of the accumulator families holds up to rounding in binary64 "
                "(DESIGN 5.1/5.2): for the rolling SUM this is now a theorem about the execution instance (Coq's primitive "
                "binary64, Flocq's IEEE addition; Proofs/RoundSum.v, (13)-(17)) — after any history the emitted sum is within "
                "((1+u)^m - 1) * H of the exact window sum (u = 2^-53, m <= 2i+1 operations performed so far, H <= 2 * sum of |x| "
